@@ -75,11 +75,15 @@ package vgirpc
 //@   loop 0 invariant prevEnd == endOf(s, rangeindex+1)
 //@   loop 0 invariant forall k int :: 0 <= k && k <= rangeindex ==> gapBefore(s,k) < size
 //@   # proof hints (each is itself an obligation): the contents of the slice handed to writeAllocs
-//@   at call (*ShmSegment).writeAllocs#2 assert len(newAllocs) == cnt(s) + 1 &&
+//@   at call (*ShmSegment).writeAllocs#1 assert len(newAllocs) == cnt(s) + 1 &&
 //@       (forall k int :: 0 <= k && k < i ==> newAllocs[k][0] == entOff(s,k) && newAllocs[k][1] == entLen(s,k))
-//@   at call (*ShmSegment).writeAllocs#2 assert newAllocs[i][0] == prevEnd && newAllocs[i][1] == size
-//@   at call (*ShmSegment).writeAllocs#2 assert
+//@   at call (*ShmSegment).writeAllocs#1 assert newAllocs[i][0] == prevEnd && newAllocs[i][1] == size
+//@   at call (*ShmSegment).writeAllocs#1 assert
 //@       forall k int :: i < k && k <= cnt(s) ==> newAllocs[k][0] == entOff(s,k-1) && newAllocs[k][1] == entLen(s,k-1)
+
+//@   at call (*ShmSegment).writeAllocs#2 assert len(allocs) == cnt(s) + 1 &&
+//@       (forall k int :: 0 <= k && k < cnt(s) ==> allocs[k][0] == entOff(s,k) && allocs[k][1] == entLen(s,k))
+//@   at call (*ShmSegment).writeAllocs#2 assert allocs[cnt(s)][0] == prevEnd && allocs[cnt(s)][1] == size && prevEnd == endOf(s, cnt(s))
 
 //@ func (*ShmSegment).canFitLocked
 //@   property C34
